@@ -4,7 +4,7 @@ use crate::infra::*;
 use pdatastructs::reservoirsampling::ReservoirSampling;
 use serde_json::json;
 
-pub const RULE: &str = "k in {1,2,3,7,64,1000} (plus one run with k = 2^32-1 and 2^32+1000 adds of a zero-sized item), stream = position ids, n across all three phases and their boundaries and up to 1e5 (1e6 thorough); RNGs: FastRng, HostileRng with p in {0.05,0.5,0.95}, scripted prefixes (all-zero / all-ones / alternating words); after every add / Extend::extend run (n <= 3000) or every 97 adds (about 40 % of the runs feed parts of the stream through extend() with an iterator whose size hint over-estimates): len = min(n,k), every item < n, no repeated position, prefix kept in order until the (k+1)-th add, i() = n, is_empty iff n = 0; any panic is a violation; streams of <= 20000 items are followed by clear() and a second identical round. non-trivial = run that reached the gap-sampling phase with >= 1 accepted and >= 1 skipped item; distinct = (k, n, rng) tuples";
+pub const RULE: &str = "k in {1,2,3,7,64,1000} (plus one run with k = 2^32-1 and 2^32+1000 adds of a zero-sized item, and k in {2^33..usize::MAX} with 1/8/16-byte items for 2000 adds incl. extend/clone/clear in a child process), stream = position ids, n across all three phases and their boundaries and up to 1e5 (1e6 thorough); RNGs: FastRng, HostileRng with p in {0.05,0.5,0.95}, scripted prefixes (all-zero / all-ones / alternating words); after every add / Extend::extend run (n <= 3000) or every 97 adds (about 40 % of the runs feed parts of the stream through extend() with an iterator whose size hint over-estimates): len = min(n,k), every item < n, no repeated position, prefix kept in order until the (k+1)-th add, i() = n, is_empty iff n = 0; any panic is a violation; streams of <= 20000 items are followed by clear() and a second identical round. non-trivial = run that reached the gap-sampling phase with >= 1 accepted and >= 1 skipped item; distinct = (k, n, rng) tuples";
 pub const ASSUMPTIONS: &[&str] = &["hostile RNGs are never constant, so rand's own rejection loops terminate"];
 
 fn rng_for(kind: u64, seed: u64, r: &mut FastRng) -> (CtlRng, String) {
@@ -160,6 +160,78 @@ fn huge_k(rep: &mut Report) {
     }
 }
 
+/// Huge k with items that do have a size (k*size_of::<T>() far beyond any memory, partly beyond
+/// isize::MAX): the reservoir only ever holds min(n, k) items, so 2000 adds must work. Runs in a
+/// child process: a failed allocation aborts and cannot be caught by catch_unwind.
+pub fn huge_k_child() -> i32 {
+    fn one<T: Clone + PartialEq + std::fmt::Debug>(k: usize, mk: impl Fn(u64) -> T) -> Option<String> {
+        let mut s: ReservoirSampling<T, CtlRng> = ReservoirSampling::new(k, CtlRng::fast(k as u64));
+        let n = 2000u64;
+        for j in 0..n / 2 {
+            s.add(mk(j));
+        }
+        s.extend((n / 2..n).map(&mk));
+        if s.i() as u64 != n || s.reservoir().len() as u64 != n {
+            return Some(format!("i() = {}, reservoir().len() = {} after {} adds", s.i(), s.reservoir().len(), n));
+        }
+        if let Some(j) = (0..n).find(|j| s.reservoir()[*j as usize] != mk(*j)) {
+            return Some(format!("reservoir()[{}] = {:?} is not the {}-th item of the stream", j, s.reservoir()[j as usize], j));
+        }
+        let mut c = s.clone();
+        c.add(mk(n));
+        s.clear();
+        s.add(mk(0));
+        if c.reservoir().len() as u64 != n + 1 || s.reservoir().len() != 1 || !c.reservoir().contains(&mk(n)) {
+            return Some("clone()/clear() followed by add() gives a wrong reservoir".into());
+        }
+        None
+    }
+    for k in [1usize << 33, 1 << 40, 1 << 59, 1 << 60, usize::MAX / 16 + 1, usize::MAX / 4, usize::MAX / 2 + 1, usize::MAX - 1, usize::MAX] {
+        for ty in 0..3 {
+            let res = guarded(|| match ty {
+                0 => one::<u64>(k, |j| j),
+                1 => one::<(u64, u64)>(k, |j| (j, !j)),
+                _ => one::<u8>(k, |j| (j % 251) as u8),
+            });
+            let tyname = ["u64", "(u64,u64)", "u8"][ty];
+            match res {
+                Ok(None) => println!("HUGEK k={} T={} ok", k, tyname),
+                Ok(Some(w)) => {
+                    println!("HUGEK k={} T={} wrong: {}", k, tyname, w);
+                    return 1;
+                }
+                Err(msg) => {
+                    println!("HUGEK k={} T={} panic: {}", k, tyname, msg);
+                    return 1;
+                }
+            }
+        }
+    }
+    0
+}
+
+fn huge_k_sized(rep: &mut Report) {
+    rep.evaluations += 27 * 2001;
+    let Ok(exe) = std::env::current_exe() else { return };
+    match std::process::Command::new(exe).arg("c18-hugek").output() {
+        Ok(o) => {
+            let out = String::from_utf8_lossy(&o.stdout).to_string();
+            let err: String = String::from_utf8_lossy(&o.stderr).chars().take(400).collect();
+            if o.status.success() {
+                rep.count("huge_k_sized_item_runs_ok", 27);
+            } else {
+                let last = out.lines().last().unwrap_or("").to_string();
+                rep.violation(
+                    "C18/huge-k/sized-items",
+                    format!("ReservoirSampling with a huge k (2^33 .. usize::MAX) and items of 1, 8 or 16 bytes: the child process doing 2000 adds ended abnormally (status {:?}); last line: '{}'; stderr: {}", o.status.code(), last, err),
+                    json!({"stdout_tail": out.lines().rev().take(3).collect::<Vec<_>>(), "stderr": err}),
+                );
+            }
+        }
+        Err(e) => rep.inconclusive.push(format!("cannot spawn the huge-k child: {}", e)),
+    }
+}
+
 pub fn run(ctx: &Ctx) -> Report {
     let n = match (ctx.tier, ctx.is_dbg()) {
         (Tier::Quick, false) => 20_000,
@@ -170,6 +242,9 @@ pub fn run(ctx: &Ctx) -> Report {
     let mut rep = par_run(ctx, n, |i, rep| {
         if i == 0 && !ctx.is_dbg() {
             huge_k(rep);
+        }
+        if i == 1 {
+            huge_k_sized(rep);
         }
         item(ctx, i, rep)
     });
